@@ -1,10 +1,20 @@
 /-
 Specification verdicts on concrete implementation results: for a protocol case and the result the
 real code produced, does the property's statement hold?  Uses only Spec/ definitions (never Model/).
+Answers: "ok", "n/a" (the property says nothing about this case) or "VIOLATED:<reason>".
 -/
-import Precis.Model.Types
+import Precis.Proto
+import Precis.Spec.C18
+import Precis.Spec.C13
 namespace Precis.Spec
+open Precis.Proto
 
-def verdict (_case _impl : String) : String := "n/a"
+def verdict (case impl : String) : String :=
+  let f := (case.splitOn "|").toArray
+  let arg (i : Nat) : String := f.getD i ""
+  match arg 0 with
+  | "cmp" => C18.verdict (arg 1) (arg 2) impl
+  | "stabilize" => C13.verdict (arg 1) (arg 2) impl
+  | _ => "n/a"
 
 end Precis.Spec
